@@ -136,6 +136,25 @@ MCNext ==
 
 MCSpec == MCInit /\ [][MCNext]_mcvars
 
+\* ---- liveness (thorough tier): weak fairness on every step of the loops, the timers and the continuations of
+\* pending operations (not on clients issuing new operations, not on faults, not on the clock).  No state
+\* constraint is used with it.
+Fair == /\ WF_mcvars(A_Flushed) /\ WF_mcvars(A_RespReturn) /\ WF_mcvars(A_AwaitReturn) /\ WF_mcvars(A_JoinReturn)
+        /\ WF_mcvars(A_RegBody) /\ WF_mcvars(A_RegPingReturn)
+        /\ WF_mcvars(A_StartedBegin) /\ WF_mcvars(A_ScriptStep) /\ WF_mcvars(A_StartedEnd) /\ WF_mcvars(A_Dequeue)
+        /\ WF_mcvars(A_MailboxClosed) /\ WF_mcvars(A_StopTaken) /\ WF_mcvars(A_PingHandled) /\ WF_mcvars(A_HandleBegin)
+        /\ WF_mcvars(A_HandleEnd) /\ WF_mcvars(A_RestartTaken) /\ WF_mcvars(A_RestartStopped) /\ WF_mcvars(A_RestartRefresh)
+        /\ WF_mcvars(A_RestartStarted) /\ WF_mcvars(A_StoppedEnd) /\ WF_mcvars(A_Notify) /\ WF_mcvars(A_Exit)
+        /\ WF_mcvars(A_StreamItem) /\ WF_mcvars(A_StreamDone) /\ WF_mcvars(A_FinishedEnd)
+MCLiveSpec == MCSpec /\ Fair
+\* C02: once the target has terminated, every pending operation on it completes
+L_Resolves == \A c \in Client : ((cli[c].stage \in {"flush", "resp", "await", "join"} /\ Terminated(cli[c].ta)) ~> cli[c].stage = "idle")
+\* C04 / C05: an accepted stop request, or the loss of the last strong handle, leads to termination
+L_StopTerminates == \A a \in Actor : (hst.stopAcc[a] ~> Terminated(a))
+L_DropTerminates == \A a \in Actor : ((act[a].pc # "unborn" /\ ~ChanOpen(a)) ~> Terminated(a))
+\* C12: a send that waits for mailbox space returns once the actor catches up or terminates
+L_SendReturns == \A c \in Client : ((cli[c].stage = "flush") ~> (cli[c].stage # "flush"))
+
 \* terminal states: nothing can move any more
 Quiescent == /\ \A a \in Actor : ~LoopCanStep(a)
              /\ \A c \in Client : cli[c].stage # "idle" => ~ClientContEnabled(c)
